@@ -4,6 +4,7 @@ from vverif import seq
 from vverif.core import Result, HarnessError
 
 LEVEL = 'exploration'
+KNOWN_CLASS = 'bws-between-chunk-ext-and-crlf:acceptance-depends-on-segmentation'  # see known_findings.d/C24.json
 RULE = ('(a) every valid chunked encoding of bodies of 0..N bytes (N=4 quick, 6 thorough; two fillers, one of them '
         'framing look-alike bytes): all compositions into chunks x 3 size spellings x 13 extension forms applied to '
         'every chunk or to exactly one chunk/last-chunk x 4 trailers; (a2) chunk sizes 10..257 in 5 spellings; '
@@ -34,7 +35,9 @@ def run(ctx):
     m = seq.run(ctx, exe)
     oc = m['outcomes']
     cnt = m['counters']
-    if not m['deadline_hit']:
+    # vacuity guards apply to complete runs without violations (a violating input stops its own remaining sub-runs)
+    other = [f for f in m['failures'] if f['key'] != KNOWN_CLASS]
+    if not m['deadline_hit'] and not other and not m['crashes']:
         if oc.get('valid:decoded', 0) == 0:
             raise HarnessError('vacuity guard: no valid encoding was decoded')
         # every verdict class of the reference must have been reached by a malformed/truncated input (token strings or edits)
